@@ -16,7 +16,7 @@ LEVEL = "exploration"
 TECHNIQUE = "model-based testing of call histories: reference model of the documented adaptive rule and retry loop advanced in lock-step with TDGLSolver.update; refusals cross-checked with the public solve_for_psi_squared"
 RULE = (
     "history = generated device/drive (mild .. violent: dt up to 50x the explicit stability scale) x (dt_init, dt_max, window 1..10, "
-    "multiplier in (0,1), max retries 0..10) x adaptive on/off x screening on/off, 10..80 update calls driven by the harness; "
+    "multiplier in (0,1), max retries 0..10) x adaptive on/off x screening on/off, 10..80 update calls driven by the harness, optionally with one restart of the step counter and clock (as after a thermalisation stage; during the new warm-up window only the bounds are asserted); "
     "non-trivial = the history contains a post-window proposal different from dt_max and dt_init; distinct by spec hash"
 )
 ASSUMPTIONS = [
@@ -33,8 +33,8 @@ LEVEL_NOTE = "Trusted: the harness's model of the documented rule; proposals com
 
 def budget(tier):
     if tier == "quick":
-        return dict(max_examples=160, workers=6, time_s=170, min_cases=60)
-    return dict(max_examples=4000, workers=16, time_s=1200, min_cases=120)
+        return dict(max_examples=600, workers=8, time_s=170, min_cases=150)
+    return dict(max_examples=16000, workers=16, time_s=1200, min_cases=300)
 
 
 @st.composite
@@ -53,7 +53,10 @@ def _case(draw, tier):
                              adaptive_window=draw(st.integers(1, 10)), adaptive_time_step_multiplier=draw(gen.rf(0.05, 0.95)),
                              max_solve_retries=draw(st.integers(0, 10)), include_screening=scr, screening_tolerance=1e-3,
                              field_units=fu, current_units=cu, solve_time=1.0, terminal_psi=draw(st.sampled_from([0.0, None]))),
-                ncalls=draw(st.integers(10, 40 if tier == "quick" else 80)))
+                ncalls=draw(st.integers(10, 40 if tier == "quick" else 80)),
+                # optionally the step counter and the clock restart once, as they do after a thermalisation stage
+                # (the harness's loop plays the part of the documented runner); 0 = a single stage
+                restart_frac=draw(st.sampled_from([0.0, 0.0, 0.2, 0.4, 0.6])))
 
 
 def strategy(tier):
@@ -105,7 +108,16 @@ def check_case(spec):
     tol_rel = 1e-12  # relative tolerance on the current proposal (see below)
     deltas = []
     saw_postwindow = False
-    for s in range(int(spec["ncalls"])):
+    ncalls = int(spec["ncalls"])
+    restart_at = int(round(float(spec.get("restart_frac", 0.0)) * ncalls)) or None
+    stage, s = 0, -1
+    synced = True  # False during the warm-up window of a later stage, where the property prescribes no proposal
+    if restart_at:
+        res.label("two stages (step counter and clock restart once)")
+    for call in range(ncalls):
+        s += 1
+        if restart_at and call == restart_at:
+            stage, s, t, synced = 1, 0, 0.0, False
         state = dict(step=s, time=t, dt=dt_prev)
         rs.clear()
         psi_before = vals["psi"]
@@ -120,7 +132,7 @@ def check_case(spec):
             if chain[-1] < 1e-300:
                 break
         refused = None
-        if static_ops:
+        if static_ops and synced:
             refused = []
             for a in (chain[: R + 2] if adaptive else chain[:1]):
                 refused.append(attempt_refused(a))
@@ -155,7 +167,9 @@ def check_case(spec):
             break
         # ---- the step is the proposal times multiplier^r
         r = next((j for j, a in enumerate(chain) if abs(dt_s - a) <= tol_rel * dt_s), None)
-        if r is None:
+        if not synced:
+            r, refused = None, None
+        elif r is None:
             res.fail("C12.rule", f"step {s}: dt={dt_s:.12e} is not proposal*multiplier^r for r in 0..{len(chain) - 1}; model proposal {proposal:.12e} "
                      f"(window={W}, multiplier={M}, dt_init={dt_init:.3e}, dt_max={dt_max:.3e}, last deltas {deltas[-W:]})")
             break
@@ -185,14 +199,17 @@ def check_case(spec):
                 deltas.append(float(np.max(np.abs(new_sq - old_sq))))
                 derr = 1e-11 * (1 + solver.gamma ** 2)
             if s > W:
+                synced = True
                 delta = float(np.mean(deltas[-W:]))
                 new_dt = dt_init / max(delta, 1e-10)
                 proposal = min(0.5 * (new_dt + dt_s), dt_max)
                 tol_rel = 1e-12 + derr / max(delta, 1e-10)
                 if proposal != dt_max and abs(proposal - dt_init) > 1e-12 * dt_init:
                     saw_postwindow = True
+                    if stage:
+                        res.label("post-window proposal checked in the second stage")
             else:
-                proposal = proposal if s else dt_init
+                proposal = proposal if (s or stage) else dt_init
         dt_prev = dt_s
         t += dt_s
         vals.update(psi=np.array(out.psi), mu=np.array(out.mu), supercurrent=out.supercurrent, normal_current=out.normal_current,
